@@ -68,6 +68,9 @@ func H_C13_method(k int) {
 	if mt.NumOut() != 2 {
 		return
 	}
+	// the answer only has to come back unchanged: which enum members sit inside it does not matter (a symbolic
+	// choice per enum leaf made two methods with large vector results explode past the wall limit)
+	f = &filler{lenSel: 1, noChoice: true}
 	answer := makeOfType(mt.Out(0), f)
 	if rt := mt.Out(0); rt.Kind() == reflect.Interface {
 		// the declared result is a union: the server may answer with ANY of its constructors (a symbolic choice,
